@@ -26,9 +26,9 @@ SUSPECTED = [
     "C03:spec:vsix:payload-changed@relationships",
     # lib/signappx/contenttypes.go Add: a Default content type declared by the package for dll/exe/png/xml is overwritten with relic's own default
     "C03:spec:appx:payload-changed@content-types",
-    # DESIGN §5 F05: lib/comdoc rebuilds the directory tree with a case-sensitive UTF-8 comparator; entries whose names differ in case from their
-    # neighbours end up where a reader doing the [MS-CFB] 2.6.4 lookup cannot find them
-    "C03:spec:msi:output-malformed@names",
+    # (C03:spec:msi:output-malformed@names — DESIGN §5 F05, directory entries ordered by a case-sensitive UTF-8 comparator so that a reader doing the
+    #  [MS-CFB] 2.6.4 lookup misses them — reproduced here until /repo f8ff9c3 "fix: order compound-file directory entries as MS-CFB prescribes";
+    #  no longer listed: if it comes back it is a VIOLATION.)
     # lib/authenticode/powershell.go DigestPowershell assumes CRLF in front of an existing signature block: with a bare LF the last character of the
     # script text is cut off together with the line break (exit 0)
     "C03:spec:ps:payload-changed@foreign-block-lf",
